@@ -102,6 +102,12 @@ CORPUS = [
     dict(tree=('mul', _X, _X), x=[8.0, 2.0], shape=[2], method='complex', n=4, order=2, int_x=True),
     dict(tree=('add', ('mul', ('mul', _X, _X), _X), _X), x=[5.0, 2.0], shape=[2], method='complex', n=4, order=4, int_x=True),
     dict(tree=('mul', _X, _X), x=[8.0], method='complex', n=4, order=2, int_x=True),
+    # negative user-supplied steps (a step is a signed displacement): value within the envelope, estimate non-negative (repaired, 941b3cf)
+    dict(tree=('fn', 'exp', _X), x=[1.0], method='central', n=1, order=2, step=dict(kind='scalar', value=-0.01)),
+    dict(tree=('mul', ('fn', 'sin', _X), _X), x=[0.7], method='forward', n=3, order=2, step=dict(kind='scalar', value=-0.005)),
+    dict(tree=('fn', 'exp', _X), x=[0.4, 1.3], shape=[2], method='complex', n=1, order=2, step=dict(kind='scalar', value=-0.001)),
+    dict(tree=('fn', 'cos', _X), x=[0.9], method='multicomplex', n=1, order=2, step=dict(kind='scalar', value=-0.001)),
+    dict(tree=('fn', 'exp', _X), x=[0.3], method='backward', n=1, order=4, step=dict(kind='min', opts=dict(base_step=-0.002, num_steps=8))),
     # witnesses of the listed (open) findings that a random draw of the quick tier does not always contain
     dict(tree=('fn', 'sin', ('fn', 'expm1', ('div', _X, ('c', 0.1)))), x=[0.5291377990629251, 0.3655232913548389], shape=[2],
          method='central', n=1, order=3),                               # selector-picked-steps-beyond-validity-radius
